@@ -525,9 +525,12 @@ pub fn run<P: Prop>(prop: &P, args: &RunArgs) -> i32 {
     let mut unknown: Vec<(String, String, String, u64)> = vec![];
     for (sig, (case, detail, n, _)) in &merged.failures {
         if let Some(k) = matches_known(&known, sig) {
-            let e = known_hits
-                .entry(k.id.clone())
-                .or_insert((0, k.what.clone()));
+            let what = known
+                .iter()
+                .find(|o| o.id == k.id)
+                .map(|o| o.what.clone())
+                .unwrap_or_default();
+            let e = known_hits.entry(k.id.clone()).or_insert((0, what));
             e.0 += n;
         } else {
             unknown.push((sig.clone(), case.clone(), detail.clone(), *n));
